@@ -168,6 +168,7 @@ class Model:
         self.functions = {}
         self._load()
         if normalise:
+            self._inline_context_managers()
             self._relocate_class_constants()
             self._alpha_normalise()
         self._index()
@@ -209,6 +210,262 @@ class Model:
             seen.add(fi.qualname)
             fi = self.helper_owner[fi.qualname]
         return fi
+
+    # --------------------------------------------- private context managers
+    def _inline_context_managers(self):
+        """`with _helper(a, b): BODY` for a private generator helper decorated
+        with contextlib.contextmanager that neither the references nor the
+        rules know is what the helper's text says: its statements with the
+        single `yield` replaced by BODY (parameters bound to fresh locals).
+        Rewriting the syntax tree that way lets every engine -- CFG, escape
+        sets, typestate, interpreter -- see the try/except/finally the helper
+        wraps around the body.  Only module-level functions and methods of
+        the enclosing class called on its receiver are expanded, only with
+        positional / keyword arguments that bind plainly, and only when the
+        helper has exactly one `yield`, as a statement, and no `return`."""
+        import copy
+        from .absint import spec_vocabulary
+        vocab = spec_vocabulary()
+        counter = [0]
+
+        def is_cm(fn):
+            for d in fn.decorator_list:
+                txt = ast.unparse(d)
+                if txt.endswith("contextmanager"):
+                    return True
+            return False
+
+        def yields(fn):
+            ys = [n for n in ast.walk(fn) if isinstance(n, (ast.Yield,
+                                                            ast.YieldFrom))]
+            return ys
+
+        for mod in self.modules.values():
+            funcs = {st.name: st for st in mod.tree.body
+                     if isinstance(st, ast.FunctionDef) and is_cm(st)}
+            meths = {}
+            for st in mod.tree.body:
+                if isinstance(st, ast.ClassDef):
+                    for b in st.body:
+                        if isinstance(b, ast.FunctionDef) and is_cm(b):
+                            meths[(st.name, b.name)] = b
+            if not funcs and not meths:
+                continue
+            changed = False
+            for owner in [n for n in ast.walk(mod.tree)
+                          if isinstance(n, (ast.FunctionDef,
+                                            ast.AsyncFunctionDef))]:
+                if is_cm(owner):
+                    continue
+                cls = getattr(owner, "_parent", None)
+                cls = cls if isinstance(cls, ast.ClassDef) else None
+                again = True
+                while again:
+                    again = False
+                    for w in [n for n in ast.walk(owner)
+                              if isinstance(n, ast.With)]:
+                        if len(w.items) != 1:
+                            # with a, b: -> with a: with b:
+                            inner = ast.With(items=w.items[1:], body=w.body)
+                            ast.copy_location(inner, w)
+                            w.items = w.items[:1]
+                            w.body = [inner]
+                            again = True
+                            break
+                        it = w.items[0]
+                        c = it.context_expr
+                        if not isinstance(c, ast.Call):
+                            continue
+                        helper = recv = None
+                        if isinstance(c.func, ast.Name) \
+                                and c.func.id in funcs:
+                            helper = funcs[c.func.id]
+                        elif isinstance(c.func, ast.Attribute) \
+                                and isinstance(c.func.value, ast.Name) \
+                                and cls is not None and owner.args.args \
+                                and c.func.value.id == owner.args.args[0].arg \
+                                and (cls.name, c.func.attr) in meths:
+                            helper = meths[(cls.name, c.func.attr)]
+                            recv = c.func.value
+                        if helper is None or helper.name in vocab \
+                                or not helper.name.startswith("_"):
+                            continue
+                        ys = yields(helper)
+                        if len(ys) != 1 or isinstance(ys[0], ast.YieldFrom) \
+                                or not isinstance(getattr(ys[0], "_parent",
+                                                          None), ast.Expr) \
+                                or any(isinstance(n, ast.Return)
+                                       for n in ast.walk(helper)) \
+                                or helper.args.vararg or helper.args.kwarg \
+                                or helper.args.kwonlyargs \
+                                or any(isinstance(a, ast.Starred)
+                                       for a in c.args) \
+                                or any(k.arg is None for k in c.keywords):
+                            continue
+                        params = [a.arg for a in helper.args.args]
+                        vals = list(c.args)
+                        if recv is not None:
+                            vals = [recv] + vals
+                        bind = {}
+                        kw = {k.arg: k.value for k in c.keywords}
+                        nd = len(helper.args.defaults)
+                        okb = True
+                        for i, pn in enumerate(params):
+                            if i < len(vals):
+                                bind[pn] = vals[i]
+                            elif pn in kw:
+                                bind[pn] = kw[pn]
+                            elif i >= len(params) - nd:
+                                bind[pn] = helper.args.defaults[
+                                    i - (len(params) - nd)]
+                            else:
+                                okb = False
+                        if not okb or len(vals) > len(params):
+                            continue
+                        counter[0] += 1
+                        tag = "__cm%d_" % counter[0]
+                        pre = []
+                        ren = {}
+                        direct = {}
+                        stored_in_helper = {
+                            n.id for n in ast.walk(helper)
+                            if isinstance(n, ast.Name)
+                            and isinstance(n.ctx, ast.Store)}
+                        stored_in_body = {
+                            n.id for st in w.body for n in ast.walk(st)
+                            if isinstance(n, ast.Name)
+                            and isinstance(n.ctx, (ast.Store, ast.Del))}
+                        for pn in params:
+                            v = bind[pn]
+                            if recv is not None and pn == params[0]:
+                                ren[pn] = recv.id      # the same receiver
+                                continue
+                            simple = isinstance(v, ast.Constant) or (
+                                isinstance(v, ast.Name)
+                                and v.id not in stored_in_body) or (
+                                isinstance(v, ast.Attribute)
+                                and isinstance(v.value, ast.Name)
+                                and v.value.id not in stored_in_body)
+                            if simple and pn not in stored_in_helper:
+                                # the argument expression itself (it cannot
+                                # change between the call and its uses)
+                                direct[pn] = v
+                                continue
+                            ren[pn] = tag + pn
+                            asg = ast.Assign(
+                                targets=[ast.Name(id=tag + pn,
+                                                  ctx=ast.Store())],
+                                value=copy.deepcopy(v))
+                            ast.copy_location(asg, w)
+                            pre.append(asg)
+                        body = copy.deepcopy(helper.body)
+                        holder = ast.Module(body=body, type_ignores=[])
+                        # locals of the helper get the tag too
+                        local = set(params)
+                        for n in ast.walk(holder):
+                            if isinstance(n, ast.Name) and isinstance(
+                                    n.ctx, ast.Store):
+                                local.add(n.id)
+                            elif isinstance(n, ast.ExceptHandler) and n.name:
+                                local.add(n.name)
+                        for n in list(ast.walk(holder)):
+                            if isinstance(n, ast.Name) and n.id in direct:
+                                repl = copy.deepcopy(direct[n.id])
+                                ast.copy_location(repl, n)
+                                n.__class__ = repl.__class__
+                                n.__dict__.clear()
+                                n.__dict__.update(repl.__dict__)
+                            elif isinstance(n, ast.Name) and n.id in local:
+                                n.id = ren.get(n.id, tag + n.id)
+                            elif isinstance(n, ast.ExceptHandler) \
+                                    and n.name in local:
+                                n.name = tag + n.name
+                        # replace the yield statement by the with body
+
+                        def subst(stmts):
+                            out = []
+                            for st in stmts:
+                                if isinstance(st, ast.Expr) and isinstance(
+                                        st.value, ast.Yield):
+                                    if it.optional_vars is not None:
+                                        yv = st.value.value or ast.Constant(
+                                            value=None)
+                                        a2 = ast.Assign(
+                                            targets=[it.optional_vars],
+                                            value=yv)
+                                        ast.copy_location(a2, w)
+                                        out.append(a2)
+                                    out.extend(w.body)
+                                    continue
+                                for fld in ("body", "orelse", "finalbody"):
+                                    if isinstance(getattr(st, fld, None),
+                                                  list):
+                                        setattr(st, fld,
+                                                subst(getattr(st, fld)))
+                                if isinstance(st, ast.Try):
+                                    for h in st.handlers:
+                                        h.body = subst(h.body)
+                                out.append(st)
+                            return out
+                        new = pre + subst(body)
+                        if new and isinstance(new[len(pre)], ast.Expr) \
+                                and isinstance(new[len(pre)].value,
+                                               ast.Constant):
+                            del new[len(pre)]       # the docstring
+                        for st in new:
+                            ast.fix_missing_locations(st)
+                            for n in ast.walk(st):
+                                if not hasattr(n, "lineno") or True:
+                                    pass
+                        par = w._parent
+                        done = False
+                        for fld in ("body", "orelse", "finalbody"):
+                            lst = getattr(par, fld, None)
+                            if isinstance(lst, list) and w in lst:
+                                i = lst.index(w)
+                                lst[i:i + 1] = new
+                                done = True
+                        if not done and isinstance(par, ast.Try):
+                            for h in par.handlers:
+                                if w in h.body:
+                                    i = h.body.index(w)
+                                    h.body[i:i + 1] = new
+                                    done = True
+                        if not done:
+                            continue
+                        for n in ast.walk(par):
+                            for ch in ast.iter_child_nodes(n):
+                                ch._parent = n
+                        changed = True
+                        again = True
+                        self.renamed["%s.%s (context manager)"
+                                     % (mod.name, helper.name)] = \
+                            "expanded in " + owner.name
+                        break
+            if changed:
+                # an expanded helper nothing refers to any more is dead code
+                for name, h in list(funcs.items()) + [
+                        (k[1], v) for k, v in meths.items()]:
+                    used = any(
+                        (isinstance(n, ast.Name) and n.id == name
+                         and isinstance(n.ctx, ast.Load))
+                        or (isinstance(n, ast.Attribute) and n.attr == name)
+                        for n in ast.walk(mod.tree))
+                    if not used and name.startswith("_") \
+                            and name not in vocab:
+                        par = h._parent
+                        if h in getattr(par, "body", []):
+                            par.body.remove(h)
+                for n in ast.walk(mod.tree):
+                    for ch in ast.iter_child_nodes(n):
+                        ch._parent = n
+                    if isinstance(n, (ast.stmt, ast.expr)) and not hasattr(
+                            n, "lineno"):
+                        n.lineno = 0
+                        n.col_offset = 0
+                        n.end_lineno = 0
+                        n.end_col_offset = 0
+                mod.tree._parent = None
 
     # ------------------------------------------- relocated class constants
     def _relocate_class_constants(self):
